@@ -120,7 +120,7 @@ func genC35(t *rapid.T) c35Scenario {
 	if vkit.Thorough() {
 		s.DurationMs = rapid.SampledFrom([]int{1500, 2500, 4000}).Draw(t, "dur")
 	} else {
-		s.DurationMs = rapid.SampledFrom([]int{1200, 1800, 2400}).Draw(t, "dur")
+		s.DurationMs = rapid.SampledFrom([]int{800, 1200, 1800}).Draw(t, "dur")
 	}
 	s.Workers = rapid.IntRange(1, 4).Draw(t, "workers")
 	s.FakePeers = rapid.IntRange(1, 3).Draw(t, "fakepeers")
@@ -431,8 +431,8 @@ func execC35(s c35Scenario) vkit.Result {
 			}
 			res.Violate(r.Signature, "race between %s and %s (run %d of %d)\n%s", r.FrameA, r.FrameB, i+1, runs, txt)
 		}
-		if len(seen) > 0 && c35Replaying() {
-			break
+		if len(seen) > 0 && c35Replaying() && i >= 2 {
+			break // at least 3 runs, then stop as soon as something was reported
 		}
 	}
 	rr := last
